@@ -284,15 +284,12 @@ type c04Fail struct {
 	iface, key, keyStr, outcome, detail string
 }
 
-var c04MonPort = 0
-
 // c04Monitor opens a WebSocket monitor on the real router (over a simulated
 // connection, upgrade shim of C15), collects what the server sends until it
 // has been silent for two simulated seconds and returns the subjects of the
 // stored-message events.
-func c04Monitor(c *Ctx, path string) (subjects []string, err error) {
-	c04MonPort++
-	cli, srv := simnet.Of(c.Sim).Pipe(fmt.Sprintf("192.0.2.9:%d", 20000+c04MonPort%20000), "127.0.0.1:9000")
+func c04Monitor(c *Ctx, port int, path string) (subjects []string, err error) {
+	cli, srv := simnet.Of(c.Sim).Pipe(fmt.Sprintf("192.0.2.9:%d", 20000+port), "127.0.0.1:9000")
 	simrt.Go("ws-server", func() { serveUpgrade(c, srv) })
 	u, perr := url.Parse("ws://" + webHost + path)
 	if perr != nil {
@@ -332,6 +329,7 @@ func c04Monitor(c *Ctx, path string) (subjects []string, err error) {
 
 type c04Run struct {
 	wsToken string
+	monPort int
 	c   *Ctx
 	k   *c04Case
 	web *webEnv
@@ -379,7 +377,8 @@ func (r *c04Run) lookup(iface, key, id, token string) (outcome, reported, detail
 			ver = 2
 		}
 		path := e.prefix(fmt.Sprintf("/api/v%d/monitor/messages/%s", ver, ek))
-		subjects, err := c04Monitor(r.c, path)
+		r.monPort++ // per run: nothing that is logged may depend on earlier runs of the process
+		subjects, err := c04Monitor(r.c, r.monPort, path)
 		if err != nil {
 			return "not-found", "", fmt.Sprintf("GET %s (WebSocket): %v", path, err)
 		}
